@@ -165,5 +165,64 @@ func liveRun(entS string, peers []string, hdr string) vlib.Res {
 		}
 	}
 	outs = append(outs, "doh="+strings.Join(dohs, ""))
+	// two decoded-path requests overlapping in time: while an allowed client's
+	// query waits in resolution, a denied source's query arrives (here: from inside
+	// the stub, i.e. on the same scheduler thread, where a pooled object handed out
+	// twice would be met). Each is judged by its own source, and each reply goes to
+	// its own client.
+	{
+		var allowedPeer, deniedPeer string
+		for _, ps := range peers {
+			if naive(es, parseAddr(ps)) {
+				allowedPeer = ps
+			} else {
+				deniedPeer = ps
+			}
+		}
+		ov := "-"
+		if allowedPeer != "" && deniedPeer != "" {
+			mk := func(ps, name string) *http.Request {
+				qq := new(dns.Msg)
+				qq.SetQuestion(name, dns.TypeA)
+				b, _ := qq.Pack()
+				r := httptest.NewRequest(http.MethodGet, "/dns-query?dns="+base64.RawURLEncoding.EncodeToString(b), nil)
+				r.RemoteAddr = net.JoinHostPort(parseAddr(ps).String(), "4243")
+				return r
+			}
+			isReply := func(rec *httptest.ResponseRecorder) bool {
+				m := new(dns.Msg)
+				body := rec.Body.Bytes()
+				return rec.Code == 200 && len(body) >= 12 && m.Unpack(body) == nil && m.Response
+			}
+			// a completed request first: whatever it returns to the pools is there now
+			l.Srv.ServeHTTP(httptest.NewRecorder(), mk(allowedPeer, "warm.example."))
+			var inner *httptest.ResponseRecorder
+			innerStub := int64(-1)
+			l.Stub.Set(func(req *dns.Msg) *dns.Msg {
+				if len(req.Question) == 1 && req.Question[0].Name == "slow.example." && inner == nil {
+					inner = httptest.NewRecorder()
+					before := l.Stub.Calls.Load()
+					l.Srv.ServeHTTP(inner, mk(deniedPeer, "other.example."))
+					innerStub = l.Stub.Calls.Load() - before
+				}
+				m := new(dns.Msg)
+				m.SetReply(req)
+				return m
+			})
+			outer := httptest.NewRecorder()
+			l.Srv.ServeHTTP(outer, mk(allowedPeer, "slow.example."))
+			ov = vlib.B(isReply(outer))
+			if inner != nil {
+				ov += vlib.B(isReply(inner))
+				if isReply(inner) || innerStub > 0 {
+					fail("live/doh/denied-source-served-while-another-query-was-in-flight")
+				}
+			}
+			if !isReply(outer) {
+				fail("live/doh/allowed-source-lost-its-reply-to-an-overlapping-query")
+			}
+		}
+		outs = append(outs, "overlap="+ov)
+	}
 	return vlib.Res{Impl: strings.Join(outs, " "), Oracle: or, Tags: "nt,live"}
 }
